@@ -256,6 +256,37 @@ def run(ctx, rep):
             rep.violation("C09.4", cons, f"applies {sorted(called)} before DiscoverSubcircuits but not {sorted(missing)}, which {', '.join(short(k) for k in feeders if k != q)} applies: a circuit with subcircuit blocks is executed by one entry point and rejected by the other", f.loc())
         else:
             rep.ok("C09.4", cons, f"applies {sorted(called)}", f.loc())
+        # ... and applies each of them unconditionally: whether a pass is needed cannot be told from the body
+        # alone (subcircuit blocks sit in macros too), so a pass that runs only under a test is skipped for some circuit
+        from ..cfg import CFG
+        cfg = CFG(f.body)
+        for name in sorted(called):
+            pq = PASSES[name]
+            nodes = []
+            for cs in T.callsites(f):
+                if any(t.qualname == pq for t in cs.targets):
+                    n_ = cfg.containing_stmt_node(cs.node, f.body)
+                    if n_ is not None:
+                        nodes.append((n_, cs.node))
+            if not nodes:
+                continue
+            cons2 = construct_of(f, f"unconditional:{name}")
+            # the statements from which the walker is reached (its construction, or a call that leads to it)
+            sites = []
+            for cs in T.callsites(f):
+                leads = (cs.kind == "constructor" and cs.classes and cs.classes[0] == WALKER) or any(
+                    t.qualname not in pass_quals and (t.qualname in ctor_funcs or (t.qualname in g2 and nx.descendants(g2, t.qualname) & ctor_funcs)) for t in cs.targets)
+                if leads:
+                    n_ = cfg.containing_stmt_node(cs.node, f.body)
+                    if n_ is not None and n_ not in [x for x, _ in nodes]:
+                        sites.append(n_)
+            if not sites:
+                rep.undecided("C09.4", cons2, "the statement from which the walker is reached is not identified", f.loc())
+                continue
+            if any(not cfg.must_pass_nodes(sn, [n_ for n_, _ in nodes]) for sn in sites):
+                rep.violation("C09.4", cons2, f"`{name}` runs on some paths through {short(q)} only: a circuit for which the guarding test is false reaches DiscoverSubcircuits without it -- with every subcircuit block inside a macro (`macro m a {{ subcircuit {{ Px a }} }}; m q[0]`) the output parser refuses what run_jaqal_circuit executes", f"{f.path}:{nodes[0][1].lineno}", witness="macro m a { subcircuit { Px a } }; m q[0]")
+            else:
+                rep.ok("C09.4", cons2, f"every path through {short(q)} applies {name}", f"{f.path}:{nodes[0][1].lineno}")
 
     # ------------------------------------------------------------ C09.5
     rep.rule("C09.5", "definition choice: the caller's definition, then native_gates[name], then a fresh definition", floor=1)
